@@ -555,7 +555,8 @@ func convMapToTarget(source interface{}, target reflect.Type) (interface{}, erro
 		v := iter.Value()
 		evalue, err := convTypeToTarget(v.Interface(), target.Elem())
 		if err != nil {
-			if ks := fmt.Sprint(k); firstErr == nil || ks < firstErrKey {
+			// (%#v: 1 and "1", or [2]string{"a b", "c"} and {"a", "b c"}, print alike with %v)
+			if ks := fmt.Sprintf("%#v", k.Interface()); firstErr == nil || ks < firstErrKey {
 				firstErr, firstErrKey = err, ks
 			}
 			continue
